@@ -22,6 +22,14 @@ Oracle conventions (what "the same API" means, written from the statement and th
 * only introspectable elements count (introspectable="0" and shadowed-by elements are not API);
 * binary attributes are "1" = true, anything else / absent = the schema default;
 * `deprecated` is true iff the attribute says "1";
+* the legacy allow-none="1" on a parameter means optional for direction="out" and nullable for in and
+  inout (the schema gives no rule; the scanner, which reads and writes it, does); on a return value
+  it means nullable;
+* an enumeration <member introspectable="0"> is not API (the following members keep their order);
+* a method whose glib:get-property / glib:set-property names no property of its container that is
+  API (none, or one marked introspectable="0") is a plain method;
+* a signal's run phase is first / last (default) / cleanup by its `when` attribute, any other value
+  names no phase; <attribute> children of <alias> are not stored (aliases are resolved away);
 * an <attribute> belongs to the element that contains it;
 * members keep document order inside their kind (fields, properties, methods, signals, vfuncs,
   constants); directory entries keep document order;
@@ -328,7 +336,10 @@ class Oracle(object):
         a['nullable'] = self.flag(p, 'nullable')
         a['optional'] = self.flag(p, 'optional')
         if self.flag(p, 'allow-none'):
-            if a['out']:
+            # the legacy spelling: the schema gives no rule ("Deprecated. Replaced by nullable and optional"), the
+            # scanner that reads and writes it does (giscanner/ast.py Parameter.__init__, girwriter.py
+            # _write_parameter): optional for direction="out", nullable for in AND inout
+            if d == 'out':
                 a['optional'] = True
             else:
                 a['nullable'] = True
@@ -341,7 +352,9 @@ class Oracle(object):
         a['attrs'] = self.attrs_of(p)
         return a
 
-    def x_function(self, el):
+    def x_function(self, el, props=()):
+        """props: names of the properties of the container that are API (an accessor link to any other name -- a
+        property marked introspectable="0", or none at all -- leaves a plain method)"""
         tag = el.tag
         f = {'kind': 'function', 'name': el.get('shadows') or el.get('name'),
              'symbol': el.get('c:identifier') or el.get(q('c:identifier')),
@@ -351,9 +364,11 @@ class Oracle(object):
         if tag in (q('method'), q('constructor')):
             sp, gp = el.get(q('glib:set-property')), el.get(q('glib:get-property'))
             if sp is not None:
-                f['setter'], f['prop'] = True, sp
+                if sp in props:
+                    f['setter'], f['prop'] = True, sp
             elif gp is not None:
-                f['getter'], f['prop'] = True, gp
+                if gp in props:
+                    f['getter'], f['prop'] = True, gp
         f['sig'] = self.x_signature(el, 'function')
         f['sig']['throws'] = f['throws']
         return f
@@ -390,7 +405,10 @@ class Oracle(object):
                 'type': self.x_type(self._type_child(el)), 'attrs': self.attrs_of(el)}
 
     def x_signal(self, el):
-        when = (el.get('when') or 'last').lower()
+        # run phase: "first", "last" (also the default when the attribute is absent) or "cleanup", compared without
+        # regard to case; any other value (a dumped flag name such as must-collect) names no phase
+        when = el.get('when')
+        when = 'last' if when is None else when.lower()
         sig = self.x_signature(el, 'signal')
         sig['throws'] = False
         return {'name': el.get('name'), 'deprecated': el.get('deprecated') == '1',
@@ -414,9 +432,10 @@ class Oracle(object):
 
     def functions_of(self, el):
         out = []
+        props = [p.get('name') for p in el.findall(q('property')) if self.introspectable(p)]
         for c in el:
             if c.tag in (q('function'), q('method'), q('constructor')) and self.introspectable(c):
-                out.append(self.x_function(c))
+                out.append(self.x_function(c, props))
         return out
 
     def registered(self, el, d):
@@ -462,6 +481,8 @@ class Oracle(object):
         r['unregistered'] = r['gtype_name'] is None
         vals = []
         for m in el.findall(q('member')):
+            if m.get('introspectable') == '0':
+                continue                 # not API, like every other element marked introspectable="0"
             a = self.attrs_of(m)
             cid = m.get(q('c:identifier'))
             a = sorted([x for x in a if x[0] != 'c:identifier'] + [['c:identifier', cid]])
@@ -799,7 +820,7 @@ class Gen(object):
                 self.hit('param:optional')
             if self.p(0.1):
                 a.append(('allow-none', self.rng.choice(['1', '1', '0'])))
-                self.hit('param:allow-none:' + ('out' if out else 'in'))
+                self.hit('param:allow-none:' + (d or 'in'))
             if self.p(0.1):
                 a.append(('skip', self.rng.choice(['1', '1', '0'])))
                 self.hit('param:skip')
@@ -918,6 +939,7 @@ class Gen(object):
             target = ref[1] if ref else 'gint32'
         al = E('alias', [('name', name), ('c:type', self.ns + name)])
         self.docs(al)
+        self.attributes(al, 0.2, 'alias')
         al.add(E('type', [('name', target), ('c:type', 'x')]))
         self.top.append(al)
         self.aliases.append(name)
@@ -1097,6 +1119,9 @@ class Gen(object):
             if self.p(0.2):
                 ma.append(('glib:nick', 'v%d' % i))
             self.info_attrs(ma, 'member')
+            if self.p(0.08) and not any(k == 'introspectable' for k, _v in ma):
+                ma.append(('introspectable', '0'))      # a (skip)ped member, anywhere in the list
+                self.hit('member:introspectable=0')
             m = E('member', ma)
             self.docs(m)
             self.attributes(m, 0.08, 'member')
@@ -1161,9 +1186,15 @@ class Gen(object):
                 which = self.rng.choice(['glib:set-property', 'glib:get-property'])
                 c.attrs.append((which, self.rng.choice(props)))
                 self.hit('method:' + which)
+            elif c.tag == 'method' and self.p(0.03):
+                c.attrs.append((self.rng.choice(['glib:set-property', 'glib:get-property']), 'no-such-property'))
+                self.hit('method:accessor-of-missing-property')
         for pn in props:
             a = [('name', pn)]
             self.info_attrs(a, 'property')
+            if self.p(0.1) and not any(k == 'introspectable' for k, _v in a):
+                a.append(('introspectable', '0'))       # its accessors keep their glib:get/set-property link
+                self.hit('property:introspectable=0')
             r = self.rng.random()
             if r < 0.2:
                 a.append(('readable', '0'))
@@ -1196,6 +1227,10 @@ class Gen(object):
             extra = []
             if self.p(0.6):
                 extra.append(('when', self.rng.choice(['first', 'last', 'cleanup'])))
+            elif self.p(0.15):
+                # what a dump can contain besides a run phase, other spellings, an empty value
+                extra.append(('when', self.rng.choice(['must-collect', 'FIRST', 'Cleanup', 'LAST', 'no-recurse', ''])))
+                self.hit('signal:when=' + extra[-1][1])
             for k in ('no-recurse', 'detailed', 'action', 'no-hooks'):
                 if self.p(0.2):
                     extra.append((k, self.rng.choice(['1', '1', '0'])))
